@@ -55,6 +55,16 @@ class LifeSuite(cx.CtxSuiteBase):
             ["seq", ["request", 3, False, False, None, ["skip"]], ["tia", 1]],
         ]
         progs = list(fixed)
+        # an exclusive holder, a refused request inside it (caught), then a fresh request afterwards
+        for c in (0, 1, 2, 4):
+            for c2 in (c, 3 if c == 2 else c):
+                for excl2 in (False, True):
+                    progs.append(["seq", ["request", c, False, True, None, ["try", ["request", c2, False, excl2, None, ["body", 1]]]],
+                                  ["request", c, False, False, None, ["body", 2]]])
+                    progs.append(["seq", ["request", c, False, True, None,
+                                          ["seq", ["try", ["request", c2, False, excl2, None, ["skip"]]],
+                                           ["try", ["request", c2, False, excl2, None, ["skip"]]]]],
+                                  ["seq", ["request", c, False, False, None, ["skip"]], ["request", c, False, False, None, ["skip"]]]])
         for _ in range(2500 if thorough else 450):
             progs.append(cx.rand_prog(rng, rng.choice([2, 3, 3, 4])))
         for p in progs:
